@@ -1275,6 +1275,136 @@ def gen_registry(repo: Path, notes: list, gate_ok: bool) -> str:
         ], gate_ok=gate_ok)
 
 
+# -------------------------------------------------------------------------------------------------------------
+# more tables: specs/json_schema/constant.py, the format lists of transform.py, the safe-number bounds of encode.py
+# -------------------------------------------------------------------------------------------------------------
+
+def lean_pairs(ps) -> str:
+    return "[" + ", ".join(f"({json.dumps(a)}, {json.dumps(b)})" for a, b in ps) + "]"
+
+
+def gen_json_tables(repo: Path, notes: list) -> str:
+    """Gen/JsonTables.lean — every map of specs/json_schema/constant.py as data.  A key / value that is a string
+    literal is that string; anything else (a class expression such as `type(None)`, `(float, Decimal)`) is its source
+    text (`ast.unparse`).  `**OTHER` and a bare name as a value are expanded from the module's own assignments."""
+    src_file = "utype/specs/json_schema/constant.py"
+    out = ["/-! GENERATED by tools/extract.py from utype/specs/json_schema/constant.py (+ generator.py DEFAULT_PRIMITIVE) — do not edit. -/",
+           "namespace Utv.Gen.JsonTables", ""]
+    try:
+        tree = ast.parse((repo / src_file).read_text())
+    except Exception:
+        tree = ast.parse("")
+    env = {}
+    for node in tree.body:
+        if isinstance(node, ast.Assign) and len(node.targets) == 1 and isinstance(node.targets[0], ast.Name):
+            env[node.targets[0].id] = node.value
+
+    def text(e) -> str:
+        if isinstance(e, ast.Constant) and isinstance(e.value, str):
+            return e.value
+        if isinstance(e, ast.Constant):
+            raise Untranslatable(f"{src_file}:{e.lineno} non-string literal")
+        return ast.unparse(e)
+
+    def pairs(d, depth=0):
+        if isinstance(d, ast.Name) and d.id in env and depth < 4:
+            return pairs(env[d.id], depth + 1)
+        if not isinstance(d, ast.Dict):
+            raise Untranslatable(f"{src_file}:{getattr(d, 'lineno', '?')} not a dict literal")
+        ps = []
+        for k, v in zip(d.keys, d.values):
+            if k is None:
+                ps += pairs(v, depth + 1)
+            else:
+                ps.append((text(k), text(v)))
+        return ps
+
+    def strs(e):
+        if not isinstance(e, (ast.Tuple, ast.List)) or not all(isinstance(x, ast.Constant) and isinstance(x.value, str) for x in e.elts):
+            raise Untranslatable(f"{src_file}:{getattr(e, 'lineno', '?')} not a tuple of string literals")
+        return [x.value for x in e.elts]
+
+    def emit(name, ty, f):
+        try:
+            if name not in env:
+                raise Untranslatable(f"{src_file} {name} (not found)")
+            out.append(f"def {name} : {ty} := {f(env[name])}")
+        except Untranslatable as e:
+            notes.append(f"untranslatable {e} (table {name})")
+            out.append(f"def {name} : {ty} := []   -- untranslatable")
+
+    emit("PRIMITIVES", "List String", lambda e: lean_str_list(strs(e)))
+    for nm in ("PRIMITIVE_MAP", "TYPE_MAP", "OPERATOR_NAMES", "FORMAT_MAP", "DEFAULT_CONSTRAINTS_MAP", "CONSTRAINTS_MAP",
+               "FORMAT_PATTERNS"):
+        emit(nm, "List (String × String)", lambda e: lean_pairs(pairs(e)))
+
+    def tcm(e):
+        if not isinstance(e, ast.Dict) or any(k is None for k in e.keys):
+            raise Untranslatable(f"{src_file} TYPE_CONSTRAINTS_MAP shape")
+        return "[" + ",\n  ".join(f"({lean_str_list(strs(k))}, {lean_pairs(pairs(v))})" for k, v in zip(e.keys, e.values)) + "]"
+    emit("TYPE_CONSTRAINTS_MAP", "List (List String × List (String × String))", tcm)
+    # generator.py: class attribute DEFAULT_PRIMITIVE of JsonSchemaGenerator
+    try:
+        g = ast.parse((repo / "utype/specs/json_schema/generator.py").read_text())
+        v = find_assign(g, "DEFAULT_PRIMITIVE", "JsonSchemaGenerator")
+        if not (isinstance(v, ast.Constant) and isinstance(v.value, str)):
+            raise Untranslatable("utype/specs/json_schema/generator.py JsonSchemaGenerator.DEFAULT_PRIMITIVE")
+        out.append(f"def DEFAULT_PRIMITIVE : String := {json.dumps(v.value)}")
+    except (Untranslatable, OSError, SyntaxError) as e:
+        notes.append(f"untranslatable {e} (DEFAULT_PRIMITIVE)")
+        out.append('def DEFAULT_PRIMITIVE : String := ""   -- untranslatable')
+    out += ["", "end Utv.Gen.JsonTables", ""]
+    return "\n".join(out)
+
+
+def gen_codec_tables(repo: Path, notes: list) -> str:
+    """Gen/CodecTables.lean — the format lists of `TypeTransformer` (transform.py; `DateFormat.X` resolved) and the
+    safe-number bounds of encode.py"""
+    out = ["/-! GENERATED by tools/extract.py from utype/utils/transform.py (DATE_FORMATS, DATETIME_FORMATS) and "
+           "utype/utils/encode.py (MAX/MIN_SAFE_NUMBER) — do not edit. -/", "namespace Utv.Gen.CodecTables", ""]
+    src_file = "utype/utils/transform.py"
+    try:
+        tr = ast.parse((repo / src_file).read_text())
+    except Exception:
+        tr = ast.parse("")
+
+    def fmt(e):
+        if isinstance(e, ast.Constant) and isinstance(e.value, str):
+            return e.value
+        if isinstance(e, ast.Attribute) and isinstance(e.value, ast.Name):
+            v = find_assign(tr, e.attr, e.value.id)
+            if isinstance(v, ast.Constant) and isinstance(v.value, str):
+                return v.value
+        raise Untranslatable(f"{src_file}:{getattr(e, 'lineno', '?')} format entry {ast.unparse(e)}")
+
+    for nm in ("DATE_FORMATS", "DATETIME_FORMATS"):
+        try:
+            v = find_assign(tr, nm, "TypeTransformer")
+            if not isinstance(v, (ast.List, ast.Tuple)):
+                raise Untranslatable(f"{src_file} TypeTransformer.{nm}")
+            out.append(f"def {nm} : List String := {lean_str_list([fmt(x) for x in v.elts])}")
+        except Untranslatable as e:
+            notes.append(f"untranslatable {e} (table {nm})")
+            out.append(f"def {nm} : List String := []   -- untranslatable")
+    try:
+        en = ast.parse((repo / "utype/utils/encode.py").read_text())
+    except Exception:
+        en = ast.parse("")
+    for nm in ("MAX_SAFE_NUMBER", "MIN_SAFE_NUMBER"):
+        v = find_assign(en, nm)
+        try:
+            val = ast.literal_eval(v) if v is not None else None
+        except Exception:
+            val = None
+        if isinstance(val, int) and not isinstance(val, bool):
+            out.append(f"def {nm} : Int := {val}")
+        else:
+            notes.append(f"untranslatable utype/utils/encode.py {nm}")
+            out.append(f"def {nm} : Int := 0   -- untranslatable")
+    out += ["", "end Utv.Gen.CodecTables", ""]
+    return "\n".join(out)
+
+
 def gen_field(repo: Path, notes: list, gate_ok: bool) -> str:
     return gen_group(
         repo, notes, src_file="utype/parser/field.py", cls_name="ParserField", ns="Field",
@@ -1300,6 +1430,8 @@ def main():
     files["Field.lean"] = gen_field(repo, notes, unprov_ok)
     files["Options.lean"] = gen_options(repo, notes, unprov_ok)
     files["Registry.lean"] = gen_registry(repo, notes, unprov_ok)
+    files["JsonTables.lean"] = gen_json_tables(repo, notes)
+    files["CodecTables.lean"] = gen_codec_tables(repo, notes)
     files["NOTES.txt"] = "\n".join(notes) + ("\n" if notes else "")
     for name, txt in files.items():
         p = outd / name
